@@ -127,6 +127,8 @@ type K struct {
 	Log      []string
 	Choices  []uint16
 	Diverged bool
+	explicit bool     // the schedule is given (Schedule), not drawn
+	picks    []uint16 // see Schedule
 
 	tasks    map[uint64]*Task
 	rootGid  uint64 // the kernel's own goroutine: scheduling points reached on it (scenario set-up, oracles) pass through
@@ -160,6 +162,11 @@ func New(cfg Config) *K {
 	k.start = time.Now()
 	k.Pairs = PairSink
 	k.rootGid = gid()
+	Made++
+	Last = k
+	if ForceNext != nil && Made == 1 {
+		k.explicit, k.picks = true, ForceNext.Picks
+	}
 	k.Sched = rand.New(rand.NewPCG(cfg.Seed, 0x5ced))
 	k.Env = rand.New(rand.NewPCG(cfg.Seed, 0xe17))
 	if cfg.Strategy == StratPCT {
@@ -174,6 +181,23 @@ func New(cfg Config) *K {
 	}
 	return k
 }
+
+// Schedule is an explicit schedule for one run: what a replay file carries
+// once the driver has minimised the schedule of a failing run. Picks[i] decides
+// step i: 0 = the default (carry on with the task that ran last if it is among
+// the candidates, otherwise take the candidate that has waited longest), n > 0 =
+// candidate n-1 of that step's candidate list. Steps beyond the list are default.
+type Schedule struct {
+	Picks []uint16 `json:"picks"`
+}
+
+var (
+	// ForceNext, when set, replaces the seeded strategy of the next kernel created.
+	ForceNext *Schedule
+	// Made counts kernels created (the worker resets it per run); Last is the most recent one.
+	Made int
+	Last *K
+)
 
 // PairSink is the process-wide set the kernels add their site pairs to (set
 // by the worker; nil = not recorded).
@@ -514,6 +538,26 @@ func (k *K) Run(done Checker) string {
 
 //go:norace
 func (k *K) choose(cands []cand) int {
+	if k.explicit {
+		p := 0
+		if k.Steps < len(k.picks) {
+			p = int(k.picks[k.Steps])
+		}
+		if p > 0 {
+			if p-1 < len(cands) {
+				return p - 1
+			}
+			k.Diverged = true
+		}
+		if k.last != nil {
+			for i, c := range cands {
+				if c.r != nil && c.r.task == k.last {
+					return i
+				}
+			}
+		}
+		return 0
+	}
 	if k.Steps < len(k.cfg.Forced) {
 		i := int(k.cfg.Forced[k.Steps])
 		if i >= len(cands) {
